@@ -12,6 +12,14 @@ def correspondence(ctx):
     recs += [chargen.gen_recipe(ctx.rng) for _ in range(300 if ctx.tier == "quick" else 4000)]
     ctx.gen_results = chargen.run_chargen_family(ctx, 0, recipes=recs)
     wcases = wlgen.gen_cases(ctx, 200 if ctx.tier == "quick" else 2500)
+    # lists with an empty entry (a word file split on newlines ends in one): whatever Generate does with the empty word (F7 is
+    # about that), it must not talk about the others
+    for l, cap, sep in ((["velvet", "", "marble", "thunder"], "first", ("char", "+")), (["", "alpha", "gamma"], "all", ("preset", "SFDigits1")),
+                        (["kettő", "három", ""], "random", ("char", ""))):
+        for kind in ("first", "last", "random", "exact"):
+            wcases.append({"list": l, "length": 4, "sep": sep, "cap": cap, "budget": chargen.DEFAULT_BUDGET,
+                           "words": wlgen.make_tape(ctx.rng, len(l), 4, sep, cap, kind), "meta": {"list": l, "corpus": "empty entry", "tape_kind": kind, "cap": cap,
+                                                                                                    "sep": wlgen.sep_json(sep), "length": 4}})
     ctx.wl_results = wlgen.run_wlgen_family(ctx, wcases)
     lists = [list(l) for l in wlgen.LISTS_FIXED] + [wlgen.gen_list(ctx.rng) for _ in range(60 if ctx.tier == "quick" else 600)]
     ctx.list_results = c10.run_wordlist_family(ctx, lists, 2)
